@@ -516,8 +516,8 @@ impl<'a> Sim<'a> {
                         rule!(self.ctx, "C11", "position-value", what, pv.is_none(), "after {what}: {s} has no quote but position value {:?}", pv);
                     }
                 }
-                // cost basis and profit from the broker's own log
-                let (cq, cv) = cost_basis_of(&o.trades, s);
+                // cost basis and profit over the trades the exchange executed for this broker
+                let (cq, cv) = cost_basis_of(&self.led.trades, s);
                 let cb = o.cost_basis.get(s).copied().flatten();
                 if cq == 0.0 {
                     rule!(self.ctx, "C11", "cost-basis", what, cb.is_none(), "after {what}: {s} is flat by the log but cost basis is {:?}", cb);
@@ -541,7 +541,7 @@ impl<'a> Sim<'a> {
             // symbols that are flat must report no cost basis
             for (s, cb) in &o.cost_basis {
                 if !o.holdings.contains_key(s) {
-                    let (cq, _) = cost_basis_of(&o.trades, s);
+                    let (cq, _) = cost_basis_of(&self.led.trades, s);
                     if cq == 0.0 {
                         rule!(self.ctx, "C11", "cost-basis", what, cb.is_none(), "after {what}: {s} is flat but cost basis is {:?}", cb);
                         if o.trades.iter().any(|t| &t.symbol == s) {
@@ -703,7 +703,7 @@ impl<'a> Sim<'a> {
             // panic" for send_order; a check() that panics cannot reconcile, ...); for any other focus
             // property the run simply ends here
             let props: &[&str] = match &rec.op {
-                BOp::Send { .. } | BOp::SendMany { .. } => &["C06"],
+                BOp::Send { .. } | BOp::SendMany { .. } => &["C06", "C09"],
                 BOp::Liquidate { .. } => &["C10"],
                 BOp::Diff { .. } => &["C12", "C06"],
                 BOp::Check => &["C04", "C05", "C09"],
@@ -823,11 +823,20 @@ impl<'a> Sim<'a> {
         }
         let sent = matches!(e, BrokerEvent::OrderSentToExchange(_));
         ev!(self.ctx, "send {:?} -> {} arrivals={}", spec, if sent { "sent" } else { "refused" }, out.arrivals.len());
-        let Some((_bid, ask, _)) = quote else {
-            // outside the property's domain (no last seen ask); the generator does not produce it
-            self.ctx.bump("skipped_out_of_domain_unquoted_symbol");
-            return;
+        let (ask, unquoted) = match quote {
+            Some((_bid, ask, _)) => (ask, false),
+            None if o0.failed => {
+                // a Failed broker must refuse any order without effect, quoted or not (C09)
+                self.ctx.bump("probe_unquoted_symbol_order_while_failed");
+                (f64::NAN, true)
+            }
+            None => {
+                // outside the property's domain (no last seen ask); the generator does not produce it
+                self.ctx.bump("skipped_out_of_domain_unquoted_symbol");
+                return;
+            }
         };
+        let _ = unquoted;
         let shares = spec.shares.0;
         let buy = spec.typ.is_buy();
         let held = o0.holdings.get(&spec.symbol).copied();
@@ -1383,6 +1392,9 @@ struct Gen {
     cfg: GenCfg,
     issued: usize,
     next_tag: u64,
+    queue: std::collections::VecDeque<BOp>,
+    /// thorough only: one run in a hundred executes more than 65 536 trades for one broker
+    flood: bool,
 }
 
 impl Gen {
@@ -1426,13 +1438,14 @@ impl Gen {
             delay_p: *c.pick(&[0.0, 0.2, 0.5]),
             fail_p: *c.pick(&[0.0, 0.0, 0.0, 0.05, 0.2]),
         };
-        Gen { rng: root.fork("ops"), cfg, issued: 0, next_tag: 1 }
+        let flood = thorough && matches!(focus, "C04" | "C05" | "C11") && c.one_in(10_000);
+        Gen { rng: root.fork("ops"), cfg, issued: 0, next_tag: 1, queue: std::collections::VecDeque::new(), flood }
     }
 
     fn amount(&mut self) -> f64 {
         if self.rng.one_in(25) {
             // dust and giants: sums like 0.1 + 0.2, and a balance next to which one share is noise
-            return *self.rng.pick(&[0.1, 0.2, 0.3, 1.0e12]);
+            return *self.rng.pick(&[0.1, 0.2, 0.3, 1.0e12, 1.0e21]);
         }
         *self.rng.pick(&[1000.0, 10_000.0, 100_000.0, 100_000.0, 12_345.5, 250.0, 1_000_000.0])
     }
@@ -1444,8 +1457,12 @@ impl Gen {
         }
         let held: Vec<&String> = o.holdings.keys().filter(|s| o.quotes.contains_key(*s)).collect();
         let typ = Typ::ALL[self.rng.weighted(&self.cfg.typ_w)];
-        let symbol = if !typ.is_buy() && !held.is_empty() && !self.rng.one_in(5) { (*self.rng.pick(&held)).clone() } else { (*self.rng.pick(&quoted)).clone() };
+        let mut symbol = if !typ.is_buy() && !held.is_empty() && !self.rng.one_in(5) { (*self.rng.pick(&held)).clone() } else { (*self.rng.pick(&quoted)).clone() };
         let (bid, ask, _) = o.quotes[&symbol];
+        if o.failed && self.rng.one_in(10) {
+            // only a Failed broker may be asked about a symbol it has never seen a quote for
+            symbol = "NOPE".to_string();
+        }
         let _ = ds;
         let shares = if typ.is_buy() {
             let k = if ask > 0.0 { (o.cash / ask).floor().max(0.0) } else { 0.0 };
@@ -1499,7 +1516,19 @@ impl Gen {
         let mut ws: Vec<(String, X)> = Vec::new();
         let mut left = 1.0f64;
         for s in pool.into_iter().take(n) {
-            let w = *self.rng.pick(&[0.0, 0.0, 0.1, 0.2, 0.25, 0.3, 0.5, 1.0]);
+            let mut w = *self.rng.pick(&[0.0, 0.0, 0.1, 0.2, 0.25, 0.3, 0.5, 1.0, 0.29, 0.58, 0.07]);
+            if self.rng.one_in(5) && o.liq > 0.0 {
+                // a weight that asks for exactly k shares: w x liquidation value lands on, or one ulp
+                // beside, k x price (the floor's boundary)
+                if let Some(q) = o.quotes.get(&s) {
+                    let k = self.rng.range(1, 3) as f64;
+                    let held = o.pos_value.get(&s).copied().flatten().unwrap_or(0.0);
+                    let t = (q.1 * k + held) / o.liq;
+                    if t.is_finite() && t > 0.0 && t <= 1.0 {
+                        w = t;
+                    }
+                }
+            }
             let w = if w > left { left } else { w };
             left -= w;
             let _ = o;
@@ -1531,7 +1560,22 @@ impl Gen {
             }
         };
         let modes = gen_modes_f(&mut self.rng, self.cfg.eager_only, self.cfg.delay_p, self.cfg.fail_p);
-        let op = if self.issued == 1 && !self.rng.one_in(8) {
+        if self.flood && self.issued == 2 {
+            self.flood = false;
+            if let Some(sym) = o.quotes.keys().next().cloned() {
+                sim.ctx.bump("probe_trade_flood_70k");
+                self.queue.push_back(BOp::Deposit { amt: X(1.0e12) });
+                for _ in 0..14 {
+                    let orders: Vec<OrderSpec> = (0..5000).map(|_| OrderSpec { typ: Typ::MarketBuy, symbol: sym.clone(), shares: X(1.0), price: None, preset_id: None }).collect();
+                    self.queue.push_back(BOp::SendMany { orders });
+                    self.queue.push_back(BOp::Check);
+                }
+                self.queue.push_back(BOp::Check);
+            }
+        }
+        let op = if let Some(q) = self.queue.pop_front() {
+            q
+        } else if self.issued == 1 && !self.rng.one_in(8) {
             BOp::Deposit { amt: X(self.amount()) }
         } else {
             match self.rng.weighted(&self.cfg.w) {
